@@ -385,6 +385,12 @@ pub fn replay(lines: &[String], out: &mut Out) {
                 with_width!(w, irrun_case, w, &code, &env, budget, out);
             }
             "bcrun" => out.case(line, &exec_bcrun(&t)),
+            "jitrun" | "jitsem" => out.case(line, &exec_jitrun(&t)),
+            "limchk" => {
+                out.mark(line);
+                let r = exec_limchk(&t);
+                out.case(line, &r)
+            }
             "jitgen" => out.case(line, &exec_jitgen(&t)),
             "divchk" => {
                 out.mark(line);
@@ -1125,4 +1131,437 @@ pub fn jitgen(r: &mut Rng, count: usize, out: &mut Out) {
         with_width!(w, jitgen_case, w, &code, out);
     }
     std::panic::set_hook(prev);
+}
+
+// ---------------------------------------------------------------------------------------- faults
+
+fn faults_case<C: CellType>(w: u32, code: &str, input: &[u8], out: &mut Out) {
+    // how many events does the fault-free run have?
+    let inplace = InplaceInterpreter::<C>::create(code, 0).unwrap();
+    let mut base = EnvSpec::plain(input);
+    base.out_ok = Some(200);
+    let g = run_exec::<C>(&inplace, &base, &Mode::Limited(3000));
+    if g.tag != "ok" {
+        out.stat("skipped_long");
+        return;
+    }
+    let events: Vec<&str> = if g.trace == "-" { vec![] } else { g.trace.split(',').collect() };
+    let n_out = events.iter().filter(|e| e.starts_with('o')).count();
+    let n_in = events.iter().filter(|e| e.starts_with('i')).count();
+    // every index of the first refused output byte
+    for j in 0..=n_out.min(12) {
+        let mut env = EnvSpec::plain(input);
+        env.out_ok = Some(j);
+        e2e_case::<C>(w, code, &env, out);
+        out.stat("refuse_output_at");
+    }
+    // every index of the first failing input request (error), and end of input there
+    for j in 0..n_in.min(8) {
+        let mut script: Vec<InResp> = input.iter().map(|&b| InResp::Byte(b)).collect();
+        while script.len() <= j {
+            script.push(InResp::Eof);
+        }
+        script[j] = InResp::Err;
+        let env = EnvSpec { input: Some(script.clone()), sink: true, out_ok: None };
+        e2e_case::<C>(w, code, &env, out);
+        out.stat("input_error_at");
+        script[j] = InResp::Eof;
+        let env = EnvSpec { input: Some(script), sink: true, out_ok: None };
+        e2e_case::<C>(w, code, &env, out);
+        out.stat("input_eof_at");
+    }
+    // absent source, absent sink
+    e2e_case::<C>(w, code, &EnvSpec { input: None, sink: true, out_ok: None }, out);
+    e2e_case::<C>(w, code, &EnvSpec { input: Some(input.iter().map(|&b| InResp::Byte(b)).collect()), sink: false, out_ok: None }, out);
+    out.stat("absent_source_or_sink");
+}
+
+/// I/O fault enumeration: for each program, every index of the first refused output byte, every index
+/// of the first failing input request, early end of input, absent source, absent sink — all back ends,
+/// all levels, compared with the canonical run in the same environment.
+pub fn faults(r: &mut Rng, count: usize, out: &mut Out) {
+    for _ in 0..count {
+        let code = random_program(r, out);
+        let input = gen::input_bytes(r);
+        let w = *r.pick(&WIDTHS);
+        with_width!(w, faults_case, w, &code, &input, out);
+    }
+}
+
+// ---------------------------------------------------------------------------------------- limchk
+
+/// `limchk <w> <in> <out> <hex> <ok|fuel> <canonical-trace>`: budget-limited execution on every back end
+/// and level, for a ladder of budgets, against the canonical event sequence carried by the request.
+fn limchk_exec<C: CellType>(t: &[&str]) -> String {
+    let env = match EnvSpec::decode(t[2], t[3]) { Some(e) => e, None => return "bad-request".into() };
+    let code = match crate::util::unhex(t[4]).and_then(|b| String::from_utf8(b).ok()) { Some(c) => c, None => return "bad-request".into() };
+    // verdict of the canonical semantics: `ok` = halts with exactly `canon`; `div` = certified divergent,
+    // `canon` is a long prefix; `fuel` = not known to halt within the model's fuel, `canon` is a prefix
+    let halts = t[5] == "ok";
+    let diverges = t[5] == "div";
+    let canon = t[6];
+    let mut fails: Vec<String> = Vec::new();
+    let mut finished_at: Vec<String> = Vec::new();
+    for &lvl in &LEVELS {
+        macro_rules! backend {
+            ($name:expr, $ty:ident) => {{
+                let exec = $ty::<C>::create(&code, lvl).unwrap();
+                let mut prev_len = 0usize;
+                let mut first_finished: Option<usize> = None;
+                for &b in &[0usize, 1, 2, 3, 5, 10, 30, 100, 1000, 20000, 1usize << 62] {
+                    if !halts && b > 20000 {
+                        continue; // not known to halt: an unlimited budget may never return
+                    }
+                    let r = run_exec::<C>(&exec, &env, &Mode::Limited(b));
+                    let io_stop = r.trace.rsplit(',').next().map_or(false, |e| e.starts_with('O') || e == "I");
+                    let finished = r.tag == "ok" || ($name == "basejit" && r.tag == "interrupted" && io_stop && b > 1000000);
+                    if finished {
+                        if halts && r.trace != canon {
+                            fails.push(format!("{}/O{lvl}/b{b}:finished-but-events-{}", $name, r.trace));
+                        }
+                        if diverges {
+                            fails.push(format!("{}/O{lvl}/b{b}:reports-finished-on-divergent-program", $name));
+                        }
+                        if !halts && !diverges && !trace_prefix(canon, &r.trace) {
+                            fails.push(format!("{}/O{lvl}/b{b}:finished-but-canonical-prefix-missing:{}", $name, r.trace));
+                        }
+                        if first_finished.is_none() {
+                            first_finished = Some(b);
+                        }
+                    } else {
+                        if !(trace_prefix(&r.trace, canon) || (!halts && trace_prefix(canon, &r.trace))) {
+                            fails.push(format!("{}/O{lvl}/b{b}:interrupted-events-not-a-prefix:{}", $name, r.trace));
+                        }
+                        if first_finished.is_some() && $name != "basejit" {
+                            fails.push(format!("{}/O{lvl}/b{b}:interrupted-although-a-smaller-budget-finished", $name));
+                        }
+                        if halts && b == 1usize << 62 && !($name == "basejit" && io_stop) {
+                            fails.push(format!("{}/O{lvl}:not-finished-with-unlimited-budget", $name));
+                        }
+                    }
+                    let len = if r.trace == "-" { 0 } else { r.trace.split(',').count() };
+                    if len < prev_len {
+                        fails.push(format!("{}/O{lvl}/b{b}:fewer-events-with-larger-budget", $name));
+                    }
+                    prev_len = len;
+                }
+                finished_at.push(format!("{}", first_finished.map_or("never".to_string(), |b| b.to_string())));
+            }};
+        }
+        backend!("inplace", InplaceInterpreter);
+        backend!("irint", IrInterpreter);
+        backend!("bcint", BcInterpreter);
+        backend!("basejit", BaseJitCompiler);
+    }
+    if fails.is_empty() {
+        "ok".to_string()
+    } else {
+        let shown: Vec<String> = fails.iter().take(4).map(|s| s.chars().take(160).collect()).collect();
+        format!("FAIL {} {}", fails.len(), shown.join(" "))
+    }
+}
+
+pub fn exec_limchk(t: &[&str]) -> String {
+    if t.len() != 7 {
+        return "bad-request".to_string();
+    }
+    match t[1] {
+        "8" => limchk_exec::<u8>(t),
+        "16" => limchk_exec::<u16>(t),
+        "32" => limchk_exec::<u32>(t),
+        "64" => limchk_exec::<u64>(t),
+        _ => "bad-request".to_string(),
+    }
+}
+
+// -------------------------------------------------------------------------------------- f6search
+
+/// Does the bytecode contain one of the instruction forms whose JIT arm is wrong (F6)?
+pub fn latent_forms<C: CellType>(bc: &hpbf::bc::Program<C>) -> Vec<String> {
+    use hpbf::bc::{Instr, Loc};
+    let mut hits = Vec::new();
+    for ins in &bc.insts {
+        match ins {
+            Instr::Add(Loc::Tmp(t0), Loc::Tmp(t1), Loc::Imm(imm)) if t0 != t1 => {
+                let fits = i32::try_from(imm.into_i64()).is_ok();
+                if fits && *t0 >= 11 {
+                    hits.push(format!("add-stackdst-tmp-imm:{:?}", ins));
+                }
+                if !fits {
+                    hits.push(format!("add-tmp-tmp-bigimm:{:?}", ins));
+                }
+            }
+            Instr::Mul(Loc::Tmp(t), Loc::Mem(_), Loc::Mem(_)) if *t >= 11 => {
+                hits.push(format!("mul-stackdst-mem-mem:{:?}", ins));
+            }
+            Instr::Mul(Loc::Tmp(t0), Loc::Tmp(t1), Loc::Tmp(_)) if t0 == t1 && *t0 >= 11 => {
+                hits.push(format!("mul-stackdst-self:{:?}", ins));
+            }
+            _ => {}
+        }
+    }
+    hits
+}
+
+/// Wide programs: a loop whose body rotates n cells through scaled moves with additive constants,
+/// so that the optimiser forms one large simultaneous assignment (many values live at once).
+pub fn wide_program(r: &mut Rng) -> String {
+    let n = 8 + r.below(10) as usize;
+    let mut s = String::new();
+    // initial values
+    for i in 0..n {
+        for _ in 0..(1 + r.below(3)) {
+            s.push('+');
+        }
+        let _ = i;
+        s.push('>');
+    }
+    // counter in cell n
+    for _ in 0..(2 + r.below(3)) {
+        s.push('+');
+    }
+    s.push('[');
+    s.push('-');
+    // go back to cell 0 (we are at n)
+    let mut pos = n as i64;
+    let go = |s: &mut String, pos: &mut i64, t: i64| {
+        while *pos < t {
+            s.push('>');
+            *pos += 1;
+        }
+        while *pos > t {
+            s.push('<');
+            *pos -= 1;
+        }
+    };
+    let tmp = n as i64 + 1;
+    // save cell 0 to tmp
+    go(&mut s, &mut pos, 0);
+    s.push_str("[-");
+    go(&mut s, &mut pos, tmp);
+    s.push('+');
+    go(&mut s, &mut pos, 0);
+    s.push(']');
+    for i in 0..(n as i64 - 1) {
+        // cell i := k * cell (i+1) (+ optional second source) + c
+        let k = 1 + r.below(3);
+        go(&mut s, &mut pos, i + 1);
+        s.push_str("[-");
+        go(&mut s, &mut pos, i);
+        for _ in 0..k {
+            s.push('+');
+        }
+        if r.chance(1, 3) && i > 0 {
+            go(&mut s, &mut pos, i - 1);
+            s.push('+');
+        }
+        go(&mut s, &mut pos, i + 1);
+        s.push(']');
+        let c = r.below(4);
+        go(&mut s, &mut pos, i);
+        for _ in 0..c {
+            s.push(if r.chance(1, 2) { '+' } else { '-' });
+        }
+        if r.chance(1, 4) {
+            // product of two cells: cell i += cell j * cell j2 (via nested loop with restore)
+            // kept simple: square-ish accumulate: [->+>+<<] patterns are left to the optimiser
+        }
+    }
+    go(&mut s, &mut pos, tmp);
+    s.push_str("[-");
+    go(&mut s, &mut pos, n as i64 - 1);
+    s.push('+');
+    go(&mut s, &mut pos, tmp);
+    s.push(']');
+    go(&mut s, &mut pos, n as i64);
+    s.push(']');
+    for i in 0..n as i64 {
+        go(&mut s, &mut pos, i);
+        s.push('.');
+    }
+    s
+}
+
+fn f6_case<C: CellType>(w: u32, code: &str, out: &mut Out) {
+    for &lvl in &[1u32, 2, 3] {
+        if let Ok(p) = ir::Program::<C>::parse(code) {
+            let bc = hpbf::bc::CodeGen::translate(&p.optimize(lvl), 11, false);
+            if bc.temps > 11 {
+                out.stat("with_stack_temps");
+            }
+            let hits = latent_forms(&bc);
+            if !hits.is_empty() {
+                out.case("const none", &format!("HIT w={w} O{lvl} code={} {}", hex(code.as_bytes()), hits.join(" ")));
+                out.stat("latent_form_reached");
+                return;
+            }
+        }
+    }
+    out.case("const none", "none");
+}
+
+/// Search for a source program whose JIT bytecode contains a form with a wrong selector arm.
+pub fn f6search(r: &mut Rng, count: usize, out: &mut Out) {
+    for i in 0..count {
+        let code = if i % 4 == 3 { random_program(r, out) } else { wide_program(r) };
+        let w = *r.pick(&WIDTHS);
+        with_width!(w, f6_case, w, &code, out);
+    }
+}
+
+// ---------------------------------------------------------------------------------------- jitrun
+
+/// `jitrun <w> <lim> <budget> <fuel> <in> <out> <win> <bytecode...>`: execute the given bytecode with
+/// the baseline JIT (on this CPU). Same reply format as `bcrun` (no layout).
+fn jitrun_exec<C: CellType>(t: &[&str]) -> String {
+    let lim = t[2] == "1";
+    let budget: usize = t[3].parse().unwrap();
+    let env = EnvSpec::decode(t[5], t[6]).unwrap();
+    let prog = match decode_bc::<C>(&t[8..]) {
+        Some(p) => p,
+        None => return "bad-request".to_string(),
+    };
+    let win = t[7] == "1";
+    let exec = BaseJitCompiler::<C>::verif_from_bc(prog);
+    let r = run_exec::<C>(&exec, &env, &if lim { Mode::Limited(budget) } else { Mode::Unlimited });
+    // the JIT keeps the tape pointer in a register; `Memory::offset` is only current when no `mov` ran
+    format!("{} {} {} b{}", r.tag, r.trace, if win { r.window } else { "-".to_string() }, r.budget)
+}
+
+pub fn exec_jitrun(t: &[&str]) -> String {
+    if t.len() < 9 {
+        return "bad-request".to_string();
+    }
+    match t[1] {
+        "8" => jitrun_exec::<u8>(t),
+        "16" => jitrun_exec::<u16>(t),
+        "32" => jitrun_exec::<u32>(t),
+        "64" => jitrun_exec::<u64>(t),
+        _ => "bad-request".to_string(),
+    }
+}
+
+/// One-instruction experiments for every operand-kind combination in the generator's normal form:
+/// operands are initialised with distinct values, the instruction runs, and the destination (and, when
+/// the sources are declared live, the sources) are stored into the tape window that the reply shows.
+fn jitrun_forms(w: u32, out: &mut Out) {
+    let mask: u64 = if w == 64 { u64::MAX } else { (1u64 << w) - 1 };
+    let big: u64 = if w == 64 { 0x1_2345_6789 } else { ((1u64 << (w - 1)) + 3) & mask };
+    let negs: u64 = mask - 4;
+    let vals: [u64; 6] = [3, 5 & mask, 0x7f & mask, (0x1234_5678_9abc_def1u64) & mask, mask, 2];
+    let dsts = ["m0", "m1", "t0", "t4", "t10", "t11", "t13"];
+    let srcs_a = ["m0", "m1", "m2", "t0", "t4", "t5", "t10", "t11", "t12", "t13"];
+    let mut srcs_b: Vec<String> = srcs_a.iter().map(|s| s.to_string()).collect();
+    for i in [0u64, 1, 7, big, negs, mask] {
+        srcs_b.push(format!("i{i}"));
+    }
+    let mut n = 0usize;
+    for op in ["add", "sub", "mul", "copy"] {
+        for d in dsts {
+            for a in srcs_a.iter().map(|s| s.to_string()).chain(if op == "copy" { srcs_b.clone() } else { vec![] }) {
+                let bs: Vec<String> = if op == "copy" { vec![String::new()] } else { srcs_b.clone() };
+                for b in &bs {
+                    for &live_all in &[true, false] {
+                        // operands used
+                        let mut used: Vec<String> = vec![d.to_string(), a.clone()];
+                        if !b.is_empty() {
+                            used.push(b.clone());
+                        }
+                        let mut setup: Vec<String> = Vec::new();
+                        let mut seen: Vec<String> = Vec::new();
+                        let mut maxt = 0usize;
+                        for (k, u) in used.iter().enumerate() {
+                            if u.starts_with('i') || seen.contains(u) {
+                                continue;
+                            }
+                            seen.push(u.clone());
+                            if let Some(ti) = u.strip_prefix('t') {
+                                maxt = maxt.max(ti.parse::<usize>().unwrap() + 1);
+                            }
+                            setup.push(format!("copy:{u}:i{}@2047", vals[(k + n) % vals.len()]));
+                        }
+                        n += 1;
+                        let instr = if op == "copy" { format!("copy:{d}:{a}") } else { format!("{op}:{d}:{a}:{b}") };
+                        // live across the instruction: everything (sources preserved) or nothing but what is used later
+                        let live = if live_all { 2047 } else { 0 };
+                        let mut post: Vec<String> = Vec::new();
+                        // observe the destination in cell 3, and the sources in cells -1, -2 when they must be preserved
+                        post.push(format!("copy:m3:{d}@2047"));
+                        if live_all {
+                            let mut slot = -1;
+                            for u in [a.clone(), b.clone()] {
+                                if !u.is_empty() && !u.starts_with('i') && u != d {
+                                    post.push(format!("copy:m{slot}:{u}@2047"));
+                                    slot -= 1;
+                                }
+                            }
+                        }
+                        let temps = maxt.max(1);
+                        let body = format!("{} {instr}@{live} {}", setup.join(" "), post.join(" "));
+                        let req = format!("jitrun {w} 0 0 100000 in=- out=none 1 P:{temps}:-4:4 {body}");
+                        let t: Vec<&str> = req.split_whitespace().collect();
+                        // only forms the selector implements (others panic at compile time; they are covered by `jitgen`)
+                        let compiles = {
+                            let tt: Vec<String> = t.iter().map(|s| s.to_string()).collect();
+                            let tt2: Vec<&str> = std::iter::once("jitgen").chain(std::iter::once(tt[1].as_str())).chain(["0", "1"]).chain(tt[8..].iter().map(|s| s.as_str())).collect();
+                            exec_jitgen(&tt2) != "panic"
+                        };
+                        if !compiles {
+                            continue;
+                        }
+                        out.mark(&req);
+                        let imp = exec_jitrun(&t);
+                        out.case(&req, &imp);
+                        // the same CPU result, to be reproduced by the x86 semantics model (`jitsem`)
+                        out.case(&req.replacen("jitrun", "jitsem", 1), &imp);
+                    }
+                }
+            }
+        }
+    }
+    out.stat("forms_executed");
+}
+
+fn jitrun_case<C: CellType>(w: u32, code: &str, env: &EnvSpec, out: &mut Out) {
+    let inplace = InplaceInterpreter::<C>::create(code, 0).unwrap();
+    let mut genv = env.clone();
+    if genv.out_ok.is_none() {
+        genv.out_ok = Some(3000);
+    }
+    if genv.input.is_none() {
+        genv.input = Some(vec![]);
+    }
+    let g = run_exec::<C>(&inplace, &genv, &Mode::Limited(2000));
+    if g.tag != "ok" {
+        return;
+    }
+    for &lvl in &[0u32, 1, 2, 3] {
+        let ir = ir::Program::<C>::parse(code).unwrap().optimize(lvl);
+        let bc = hpbf::bc::CodeGen::translate(&ir, 11, false);
+        let req = format!("jitrun {w} 0 0 3000000 {} 0 {}", genv.encode(), encode_bc(&bc));
+        out.mark(&req);
+        let t: Vec<&str> = req.split_whitespace().collect();
+        let imp = exec_jitrun(&t);
+        out.case(&req, &imp);
+        if bc.temps > 11 {
+            out.stat("with_stack_temps");
+        }
+    }
+}
+
+/// The JIT executing bytecode on this CPU vs. the bytecode semantics: every normal-form operand
+/// combination as a one-instruction experiment, then the bytecode of generated programs (wide ones too).
+pub fn jitrun(r: &mut Rng, count: usize, out: &mut Out) {
+    let prev = std::panic::take_hook();
+    std::panic::set_hook(Box::new(|_| {}));
+    for &w in &WIDTHS {
+        jitrun_forms(w, out);
+    }
+    std::panic::set_hook(prev);
+    for i in 0..count {
+        let code = if i % 3 == 0 { wide_program(r) } else { random_program(r, out) };
+        let env = random_env(r);
+        let w = *r.pick(&WIDTHS);
+        with_width!(w, jitrun_case, w, &code, &env, out);
+    }
 }
